@@ -493,6 +493,11 @@ def judge_pairs(ctx, sink, mk_case, lo, hi):
 
 def judge_probes(ctx, sink, mk_case, cells, K, with_global, forms, light_forms=()):
     """get_index_of on every probe, in every form.  `light_forms` are applied to corner/centre/global probes only."""
+    # history: the grid object was used for get_cartesian() (what plotting does) before the lookups
+    try:
+        ctx.region.get_cartesian(numpy.arange(ctx.n, dtype=float))
+    except Exception:
+        pass
     src = ctx.source
     region = ctx.region
     P = probe_points(ctx, cells, K, with_global)
